@@ -203,8 +203,15 @@ def main(run):
     quick = run.tier == 'quick'
     rng = random.Random(run.seed + 20)
     base = open(os.path.join(tlc.SPEC_DIR, 'MC_RateLimit.cfg')).read()
-    res = tlc.check_design('RateLimit', 'mc.cfg', cfg_text=base.replace('MaxOps = 6', 'MaxOps = 5') if quick else base.replace('MaxOps = 6', 'MaxOps = 7'), timeout=3000)
-    run.add(states=res.distinct, transitions=res.generated)
+    # theorem A: one stream, any I/O latency; theorem B: several streams, instantaneous I/O
+    resA = tlc.check_design('RateLimit', 'a.cfg', cfg_text=base.replace('Streams = {1, 2}', 'Streams = {1}').replace('MaxOps = 6', 'MaxOps = 12' if quick else 'MaxOps = 16')
+                            .replace('MaxTime = 40', 'MaxTime = 80').replace('Lats = {0, 5}', 'Lats = {0, 2, 5}'), timeout=3000)
+    resB = tlc.check_design('RateLimit', 'b.cfg', cfg_text=base.replace('Lats = {0, 5}', 'Lats = {0}').replace('MaxOps = 6', 'MaxOps = 8' if quick else 'MaxOps = 10').replace('MaxTime = 40', 'MaxTime = 60'), timeout=3000)
+    # the model of the code as it is also exhibits finding n: two streams whose own I/O takes as long as their share pass 2L
+    tlc.check_design('RateLimit', 'n.cfg', cfg_text=base.replace('Sizes = {1, 4}', 'Sizes = {4}').replace('Lats = {0, 5}', 'Lats = {4}').replace('MaxOps = 6', 'MaxOps = 40').replace('MaxTime = 40', 'MaxTime = 120'),
+                     expect_violation='RateRespected', timeout=3000)
+    res = resB
+    run.add(states=resA.distinct + resB.distinct, transitions=resA.generated + resB.generated, model_counterexample_of_finding_n=True)
     caught = []
     one = base.replace('Streams = {1, 2}', 'Streams = {1}')
     tlc.check_design('RateLimit', 'm1.cfg', cfg_text=one.replace('Mutant = "none"', 'Mutant = "halfExpected"').replace('MaxOps = 6', 'MaxOps = 14').replace('MaxTime = 40', 'MaxTime = 60'), expect_violation='RateRespected')
@@ -223,13 +230,17 @@ def main(run):
         mode = 'read' if i % 3 else 'write'
         traces.append(scenario(rng, k, 25 if quick else 80, sizes, lats, mode))
         run.case(('limiter', i, k, tuple(sizes), tuple(lats), mode))
+    # recorded finding n, exercised on every run: several streams whose underlying I/O is as slow as their share
+    traces.append(scenario(rng, 4, 40, [quarter], [0.25], 'read'))
+    run.case(('limiter', 'finding-n'))
     for i, (kind, conc) in enumerate([('snapshot', 2), ('restore', 2)] if quick else [('snapshot', 1), ('snapshot', 3), ('restore', 1), ('restore', 2), ('snapshot', 5)]):
         traces.append(command_run(rng, kind, conc))
         run.case(('command', kind, conc))
 
     def on_reject(t, idx, clause):
         e = t['events'][idx - 1]
-        fresh = run.violation(clause, 'any', {'k': t['k'], 'mode': t['mode'], 'sizes': t['sizes'], 'lats': t['lats'], 'index': idx, 'event': e,
+        cls = 'several streams with slow underlying I/O' if (clause == 'P:RateRespected' and t['k'] >= 2 and any(x > 0 for x in t['lats'])) else 'any'
+        fresh = run.violation(clause, cls, {'k': t['k'], 'mode': t['mode'], 'sizes': t['sizes'], 'lats': t['lats'], 'index': idx, 'event': e,
                                               'before': t['events'][max(0, idx - 6):idx - 1], 'burst_ticks': t['cap'] + (t['k'] + 1) * t['dmax']})
         return not fresh
     final, states = tlc.validate_loop('RateLimitTrace', 'Trace_Repo.cfg', traces, on_reject)
